@@ -33,6 +33,67 @@ func Run(m *mon.M) {
 	m.Stream("ids.boundary", m.N(150000, 4000000), idsBoundary)
 	m.Stream("advance", m.N(20000, 1000000), advance)
 	m.Stream("points", m.N(600000, 20000000), points)
+	// cold start: the first library call of a fresh process is an operation on an id that did not come
+	// from a point conversion (one child process per case, so that nothing has warmed any table)
+	m.Require("coldstart.checked", 48)
+	for rnd := 0; rnd < m.N(1, 8); rnd++ {
+		mon.RunChildren(m, "c01", "coldstart", int64(rnd)*64, int64(rnd+1)*64, 16, func(d mon.Death) (string, string, any) {
+			return "coldstart/child-died/" + d.Kind, "a fresh process whose first library call is an id operation died: " + d.Stderr, map[string]any{"exit": d.Exit, "index": d.Index}
+		})
+	}
+}
+
+// Worker runs cold-start cases in a child process.
+func Worker(args []string) { mon.ChildMain("C01", "coldstart", args, 0, 120, coldCase) }
+
+func coldCase(c *mon.Case) {
+	r := c.R
+	level, face := r.Intn(31), r.Intn(6)
+	id := s2.CellIDFromFacePosLevel(face, r.Uint64()>>3, level)
+	type obs struct {
+		p, center s2.Point
+		ll        s2.LatLng
+		v         [4]s2.Point
+		nb        [4]s2.CellID
+		tok       string
+	}
+	observe := func(first int) obs {
+		var o obs
+		for k := 0; k < 5; k++ {
+			switch (first + k) % 5 {
+			case 0:
+				o.p = id.Point()
+			case 1:
+				o.ll = id.LatLng()
+			case 2:
+				cell := s2.CellFromCellID(id)
+				o.center = cell.Center()
+				for j := 0; j < 4; j++ {
+					o.v[j] = cell.Vertex(j)
+				}
+			case 3:
+				o.nb = id.EdgeNeighbors()
+			case 4:
+				o.tok = id.ToToken()
+			}
+		}
+		return o
+	}
+	cold := observe(int(c.I))
+	back := s2.CellFromPoint(cold.p).ID() // the first point conversion of the process
+	warm := observe(int(c.I))
+	c.Count("coldstart.checked", 1)
+	c.Distinct(uint64(id))
+	det := map[string]any{"id": fmt.Sprintf("%d/%x level %d", face, uint64(id), level), "token": cold.tok, "first_operation": []string{"Point", "LatLng", "CellFromCellID", "EdgeNeighbors", "ToToken"}[c.I%5]}
+	if c.I < 2 {
+		c.Sample(det)
+	}
+	if cold != warm {
+		c.Violation("coldstart/answers-change-after-first-point-conversion/wrong-answer", fmt.Sprintf("Point/LatLng/Cell/EdgeNeighbors of id %s differ between the first calls of a fresh process and the same calls after a point was converted to an id", cold.tok), det)
+	}
+	if back.Parent(level) != id {
+		c.Violation("coldstart/centre-maps-to-another-cell/wrong-answer", fmt.Sprintf("in a fresh process the centre of %s converts back to %s", cold.tok, back.Parent(level).ToToken()), det)
+	}
 }
 
 func pow4(n int) int { return 1 << uint(2*n) }
